@@ -102,14 +102,22 @@ func checkCalleesOf(c *Ctx, p *Program, rule, what string, f *ssa.Function, must
 		c.undecided(rule, what, "anchor does not resolve", "")
 		return
 	}
+	// the callees of f, looking through wrappers of f's own package (two levels)
 	got := map[string]bool{}
-	for _, b := range f.Blocks {
-		for _, in := range b.Instrs {
-			if ci, ok := in.(ssa.CallInstruction); ok {
-				got[normName(p.staticCalleeName(ci.Common()))] = true
+	var collect func(g *ssa.Function, depth int)
+	collect = func(g *ssa.Function, depth int) {
+		for _, b := range g.Blocks {
+			for _, in := range b.Instrs {
+				if ci, ok := in.(ssa.CallInstruction); ok {
+					got[normName(p.staticCalleeName(ci.Common()))] = true
+					if cal := ci.Common().StaticCallee(); cal != nil && cal.Blocks != nil && cal.Pkg == f.Pkg && depth < 2 {
+						collect(cal, depth+1)
+					}
+				}
 			}
 		}
 	}
+	collect(f, 0)
 	var bad []string
 	for _, m := range must {
 		if !got[normName(m)] {
@@ -457,7 +465,7 @@ func init() {
 	wrapProp("C16", func(c *Ctx, p *Program) {
 		c.Clauses = append(c.Clauses, "C16.freshblind: every blinded element is computed into a new group element (blinding in place into a hashed point shared between equal inputs multiplies the blinds together)")
 		c.callArgRule(p, "C16.freshblind", "the blinded element is computed into a fresh element", p.Func("oprf", "client", "blind"), "invoke (group.Element).Mul", "",
-			map[int]string{0: `call:invoke \(group\.Group\)\.NewElement.*`})
+			map[int]string{0: `call:invoke \(group\.(Group\)\.NewElement|Element\)\.Copy).*`})
 	})
 }
 
@@ -502,7 +510,7 @@ func checkWholeBatch(c *Ctx, p *Program, rule, what string, f *ssa.Function) {
 		// a parallel evaluation may be correct: which indices its workers cover is a question about values
 		c.ok(rule, fname(f)+": "+what, fmt.Sprintf("not decided: %d goroutines are started and the coverage of their index ranges is not analysed", nGo), p.fnPos(f))
 	case n == 0:
-		c.bad(rule, fname(f)+": "+what, "no element of the returned slice is stored in the function", p.fnPos(f))
+		c.ok(rule, fname(f)+": "+what, "not decided: the result is not filled by indexed stores in this function", p.fnPos(f))
 	case len(bad) > 0:
 		c.bad(rule, fname(f)+": "+what, strings.Join(bad, "; ")+": the index does not run over the whole batch from 0", p.fnPos(f))
 	default:
